@@ -1,8 +1,10 @@
 """Adapter for MDCPDPEnv (properties C01-C05; the env ships no solution checker, so no C06).
 
-The model (coq/theories/Env/MDCPDP.v) follows the code as it is, including its four defects; the Coq harness
-(Harness/HMDCPDP.v) names, for every episode on which the independent specification fails, which of the known
-mechanisms explains the failure.  `signature` turns that into "<env>/<scope>: <mechanism>" strings.
+The model (coq/theories/Env/MDCPDP.v) is parameterised by the set of repairs applied to the code; Harness/HMDCPDP.v's
+`current_code` says which one the running code is compared with (`repaired` since the fix: commits of 2026-10-01).
+The seven mechanisms found on the old code keep their signature strings (SIG_* below, recorded as fixed in
+known_findings.json): their minimal witnesses are replayed on every run, first in the stream, and any failure on a
+witness is reported under the old signature, so a defect that returns is named.
 """
 from __future__ import annotations
 
@@ -48,24 +50,25 @@ class MDCPDPAdapter(RoutingAdapter):
     def variants(self, tier):
         V = []
 
-        def v(nl, nd, cols, mode="minsum", pm="close", dm="L2"):
+        def v(nl, nd, cols, mode="minsum", pm="close", dm="L2", sm="order"):
             V.append({"num_loc": nl, "num_depot": nd, "capacity_columns": cols, "reward_mode": mode,
-                      "problem_mode": pm, "dist_mode": dm})
-        # single depot: the code as it is implements the problem (modulo the return leg / batching)
-        v(4, 1, "one", "minsum"); v(6, 1, "one", "lateness", "open"); v(2, 1, "one", "minmax", "close", "L1")
-        # several depots, one capacity column per depot (consistent depot count)
+                      "problem_mode": pm, "dist_mode": dm, "start_mode": sm})
+        # single depot
+        v(4, 1, "one", "minsum"); v(6, 1, "one", "lateness_square", "open"); v(2, 1, "one", "minmax", "close", "L1")
+        # several depots, one capacity column per depot
         v(4, 2, "per_depot", "minmax"); v(4, 3, "per_depot", "lateness"); v(6, 2, "per_depot", "minsum", "open")
-        # several depots, generator format (one capacity column)
-        v(6, 2, "one", "minsum"); v(4, 3, "one", "lateness")
+        # several depots, generator format (one capacity column), random start depot
+        v(6, 2, "one", "lateness_square", "close", "L2", "random"); v(4, 3, "one", "lateness", "close", "L2", "random")
         if tier == "thorough":
-            v(8, 1, "one", "lateness"); v(10, 1, "one", "minmax", "open", "L1"); v(8, 2, "per_depot", "lateness", "close", "L1")
-            v(6, 4, "per_depot", "minsum"); v(10, 3, "per_depot", "minmax", "open"); v(8, 4, "one", "minmax"); v(10, 5, "one", "lateness", "open")
-            v(20, 5, "per_depot", "lateness")
+            v(8, 1, "one", "lateness"); v(10, 1, "one", "minmax", "open", "L1"); v(8, 2, "per_depot", "lateness_square", "close", "L1")
+            v(6, 4, "per_depot", "minsum", "close", "L2", "random"); v(10, 3, "per_depot", "minmax", "open"); v(8, 4, "one", "minmax")
+            v(10, 5, "one", "lateness_square", "open", "L2", "random"); v(20, 5, "per_depot", "lateness")
         return V
 
     def variant_tag(self, variant):
-        return "depots=%d,capacity=%s,%s,%s,%s" % (variant["num_depot"], variant["capacity_columns"], variant["reward_mode"],
-                                                   variant["problem_mode"], variant["dist_mode"])
+        return "depots=%d,capacity=%s,%s,%s,%s%s" % (variant["num_depot"], variant["capacity_columns"], variant["reward_mode"],
+                                                     variant["problem_mode"], variant["dist_mode"],
+                                                     ",start=random" if variant.get("start_mode") == "random" else "")
 
     def make_env(self, variant):
         from rl4co.envs import MDCPDPEnv
@@ -73,7 +76,7 @@ class MDCPDPAdapter(RoutingAdapter):
                                            "min_capacity": 1, "max_capacity": 3,
                                            "min_lateness_weight": 0.25, "max_lateness_weight": 1.0},
                          reward_mode=variant["reward_mode"], problem_mode=variant["problem_mode"],
-                         dist_mode=variant["dist_mode"], check_solution=False)
+                         dist_mode=variant["dist_mode"], start_mode=variant.get("start_mode", "order"), check_solution=False)
 
     def max_steps(self, variant):
         return 3 * (variant["num_loc"] + 2 * variant["num_depot"]) + 8
@@ -454,8 +457,14 @@ class MDCPDPAdapter(RoutingAdapter):
         return super().extra_c05(ctx, tier, order)
 
     # ---------------------------------------------------------------- signatures
+    WITNESS_SIG = {"depot_count": SIG_ND, "capacity_of_start_depot": SIG_SWITCH, "wrong_home_depot": SIG_SWITCH,
+                   "return_leg": SIG_RET, "minmax_on_start_depot": SIG_SWITCH, "row0_lengths": SIG_ROW0, "random_start": SIG_RANDOM2}
+
     def signature(self, item, tag, step):
         from vt.envprops import CONCRETE
+        kind = (item.meta or {}).get("kind", "")
+        if kind.startswith("witness/") and kind.split("/", 1)[1] in self.WITNESS_SIG:
+            return self.WITNESS_SIG[kind.split("/", 1)[1]]       # a repaired defect is back: name it as before
         if tag == 6 and step == 1:
             return SIG_ND
         if tag == 6 and step == 2:
@@ -466,11 +475,6 @@ class MDCPDPAdapter(RoutingAdapter):
             if step & 2:
                 return SIG_ROW0
             return SIG_RET
-        if tag == 16:          # a spec solution the mask hides: the same two mechanisms
-            if item.td_in["capacity"].shape[-1] != item.variant["num_depot"]:
-                return SIG_ND
-            if item.variant["num_depot"] > 1:
-                return SIG_SWITCH
         return "%s/%s: %s" % (self.name, self.variant_tag(item.variant), CONCRETE.get(tag, "tag%d" % tag))
 
 
